@@ -91,12 +91,17 @@ _HS_ASSUME = ["an impl block without its own has_storage/has_storage_ref inherit
               "a has_storage body that calls the wrapped source's has_storage* is taken to return that answer (not re-verified beyond the call being present)",
               "z3 4.8.12 and cvc5 1.0 agree; every sat answer is replayed on the real types by the native tool (wrapped source answering true)"]
 PROPS["C20"] = dict(
-    functions=_HS_FUNCS[:3],
-    bounds="the has_storage query through each of the six (layer, trait) pairs, for every answer of the wrapped source (symbolic Bool)",
-    outside="basic / code_by_hash / storage / block_hash answers of the caching layers after commit histories, block-hash pruning in State "
-            "(hash-map backed: not encodable, see DESIGN §2); &mut T / Box<T> / &T / Arc<T> forwarding is generated by auto_impl and not re-checked",
-    assumptions=_HS_ASSUME,
-    jobs=[dict(name="e3::has_storage_forwarding", fn=jobs_e3.run_has_storage)],
+    functions=_HS_FUNCS[:3] + ["<CacheDB<ExtDB> as Database>::{storage, block_hash}, <CacheDB<ExtDB> as DatabaseRef>::{storage_ref, block_hash_ref} (read policy)"],
+    bounds="the has_storage query through each of the six (layer, trait) pairs, for every answer of the wrapped source (symbolic Bool); "
+           "CacheDB storage / block-hash reads: every path of the four MIR bodies x every value of (account cached?, slot cached?, the four account states, "
+           "wrapped account exists?) - one step from an arbitrary cache content, so any commit history that produced it is covered",
+    outside="basic / code_by_hash answers of CacheDB, every read of State (block-state database: status transitions of CacheAccount), block-hash pruning in State, "
+            "what DatabaseCommit::commit writes into the cache (hash-map backed: not encodable, see DESIGN §2); &mut T / Box<T> / &T / Arc<T> forwarding is generated by auto_impl and not re-checked",
+    assumptions=_HS_ASSUME + ["read policy reference: uncached account -> wrapped database (Database::storage: zero if the wrapped account does not exist); cached slot -> cache; "
+                              "uncached slot of a cached account -> zero iff account_state is NotExisting or StorageCleared, else the wrapped database",
+                              "HashMap::get / entry / OccupiedEntry::get are taken to return what the cache holds (std semantics); a helper fn(&AccountState)->bool is inlined as its truth table"],
+    jobs=[dict(name="e3::has_storage_forwarding", fn=jobs_e3.run_has_storage),
+          dict(name="e3::cachedb_read_policy", fn=jobs_e3.run_cache_read_policy)],
 )
 PROPS["C21"] = dict(
     functions=_HS_FUNCS,
@@ -376,9 +381,10 @@ CLAIMS = {
     "C20": dict(
         text="For every database layer of the crate the has_storage answer is derived from the MIR of its trait impl (own body that reaches the wrapped source, or the "
              "inherited constant default) and compared by z3/cvc5 with the wrapped source's answer for all answers; a difference is replayed on the real types.",
-        note="Partial: only the has-storage query is decided (the one query the layers are known to drop); cached reads after commit histories need hash maps and are outside. "
+        note="Partial: the has-storage query through every layer, and the read policy of CacheDB storage / block-hash reads (provenance flow over all paths and cache states); "
+             "State (block-state database), CacheDB basic/code reads and what commit writes are outside (hash maps). "
              "Five layers currently answer `false` regardless of the wrapped data: recorded in known_findings.txt.",
-        technique="MIR impl scan + SMT equivalence query (z3+cvc5) per database layer; native replay on the real wrapper types",
+        technique="MIR impl scan + SMT equivalence query (z3+cvc5) per database layer; MIR provenance-flow symbolic execution + SMT path query for CacheDB reads; native replay on the real wrapper types",
         engine="smt-mir", design_ref="DESIGN.md §5 C20"),
     "C21": dict(
         text="The storage-collision input of contract creation is followed from both create paths back to <DB as Database>::has_storage(created_address) (MIR data flow, SMT "
